@@ -58,6 +58,9 @@ pub struct Case {
     /// the account owes a second bank as well (its bad debt there is settled by a separate call)
     #[serde(default)]
     pub second_debt: bool,
+    /// the admin switched the *debt* bank to reduce-only before the bankruptcy is handled (a bank being wound down)
+    #[serde(default)]
+    pub debt_bank_reduce_only: bool,
 }
 
 fn bank_spec_by(name: &str) -> BankSpec {
@@ -96,6 +99,10 @@ pub fn prepare(w: &World, s0: &Store, c: &Case) -> Store {
     if c.assets > 0 {
         let r = act::apply(w, &mut s, &Action::Deposit { u: 0, b: 1, amt: c.assets, up_to_limit: None });
         assert!(r.committed);
+    }
+    if c.debt_bank_reduce_only {
+        let r = process_tx(&mut s, &Tx::one(ix::configure_bank(w.group, w.roles.admin, w.banks[0].key, marginfi_type_crate::types::BankConfigOpt { operational_state: Some(BankOperationalState::ReduceOnly), ..Default::default() }), &[w.roles.admin]));
+        assert!(r.ok());
     }
     if c.assets_reduce_only {
         let r = process_tx(&mut s, &Tx::one(ix::configure_bank(w.group, w.roles.admin, w.banks[1].key, marginfi_type_crate::types::BankConfigOpt { operational_state: Some(BankOperationalState::ReduceOnly), ..Default::default() }), &[w.roles.admin]));
@@ -386,7 +393,7 @@ pub fn cases(tier: Tier, bank: &str, dist: usize, deposits: u64) -> Vec<Case> {
                 }
                 for &lsv in &lsvs {
                     for (signer, perm) in signers.iter() {
-                        v.push(Case { bank: bank.into(), dist, ins, debt_raw: debt.to_string(), lsv_raw: lsv.to_string(), signer: signer.clone(), permissionless: *perm, target: 0, assets: 0, account_flags: 0, stale_s: 0, assets_reduce_only: false, assets_init_limit: 0, assets_isolated: false, unsigned: false, assets_oracle_stale: false, second_debt: false });
+                        v.push(Case { bank: bank.into(), dist, ins, debt_raw: debt.to_string(), lsv_raw: lsv.to_string(), signer: signer.clone(), permissionless: *perm, target: 0, assets: 0, account_flags: 0, stale_s: 0, assets_reduce_only: false, assets_init_limit: 0, assets_isolated: false, unsigned: false, assets_oracle_stale: false, second_debt: false, debt_bank_reduce_only: false });
                     }
                 }
             }
@@ -398,7 +405,7 @@ pub fn cases(tier: Tier, bank: &str, dist: usize, deposits: u64) -> Vec<Case> {
         for target in [0u8, 1, 2] {
             for flags in [0u64, ACCOUNT_IN_FLASHLOAN, ACCOUNT_IN_RECEIVERSHIP, ACCOUNT_DISABLED] {
                 for (signer, perm) in [(Signer::RiskAdmin, false), (Signer::Stranger, true), (Signer::Stranger, false)] {
-                    v.push(Case { bank: bank.into(), dist, ins: 1_000, debt_raw: debt.to_string(), lsv_raw: one.to_string(), signer, permissionless: perm, target, assets, account_flags: flags, stale_s: 0, assets_reduce_only: false, assets_init_limit: 0, assets_isolated: false, unsigned: false, assets_oracle_stale: false, second_debt: false });
+                    v.push(Case { bank: bank.into(), dist, ins: 1_000, debt_raw: debt.to_string(), lsv_raw: one.to_string(), signer, permissionless: perm, target, assets, account_flags: flags, stale_s: 0, assets_reduce_only: false, assets_init_limit: 0, assets_isolated: false, unsigned: false, assets_oracle_stale: false, second_debt: false, debt_bank_reduce_only: false });
                 }
             }
         }
@@ -410,7 +417,7 @@ pub fn cases(tier: Tier, bank: &str, dist: usize, deposits: u64) -> Vec<Case> {
                 for &lsv in &lsvs {
                     for (signer, perm) in [(Signer::RiskAdmin, false), (Signer::Stranger, true)] {
                         let debt = (ins as i128 + deposits as i128 * num / 4) * one + half;
-                        v.push(Case { bank: bank.into(), dist, ins, debt_raw: debt.to_string(), lsv_raw: lsv.to_string(), signer, permissionless: perm, target: 0, assets: 0, account_flags: 0, stale_s, assets_reduce_only: false, assets_init_limit: 0, assets_isolated: false, unsigned: false, assets_oracle_stale: false, second_debt: false });
+                        v.push(Case { bank: bank.into(), dist, ins, debt_raw: debt.to_string(), lsv_raw: lsv.to_string(), signer, permissionless: perm, target: 0, assets: 0, account_flags: 0, stale_s, assets_reduce_only: false, assets_init_limit: 0, assets_isolated: false, unsigned: false, assets_oracle_stale: false, second_debt: false, debt_bank_reduce_only: false });
                     }
                 }
             }
@@ -419,45 +426,56 @@ pub fn cases(tier: Tier, bank: &str, dist: usize, deposits: u64) -> Vec<Case> {
     // a solvent account whose collateral bank is reduce-only is still solvent
     for assets in [90_000u64, 110_000, 5_000_000_000] {
         for (signer, perm) in [(Signer::RiskAdmin, false), (Signer::Stranger, true)] {
-            v.push(Case { bank: bank.into(), dist, ins: 1_000, debt_raw: debt.to_string(), lsv_raw: one.to_string(), signer, permissionless: perm, target: 0, assets, account_flags: 0, stale_s: 0, assets_reduce_only: true, assets_init_limit: 0, assets_isolated: false, unsigned: false, assets_oracle_stale: false, second_debt: false });
+            v.push(Case { bank: bank.into(), dist, ins: 1_000, debt_raw: debt.to_string(), lsv_raw: one.to_string(), signer, permissionless: perm, target: 0, assets, account_flags: 0, stale_s: 0, assets_reduce_only: true, assets_init_limit: 0, assets_isolated: false, unsigned: false, assets_oracle_stale: false, second_debt: false, debt_bank_reduce_only: false });
         }
     }
     // ... and so is one whose collateral bank caps the value counted for initial margin far below its deposits
     for assets in [110_000u64, 5_000_000_000] {
         for (signer, perm) in [(Signer::RiskAdmin, false), (Signer::Stranger, true)] {
-            v.push(Case { bank: bank.into(), dist, ins: 1_000, debt_raw: debt.to_string(), lsv_raw: one.to_string(), signer, permissionless: perm, target: 0, assets, account_flags: 0, stale_s: 0, assets_reduce_only: false, assets_init_limit: 1, assets_isolated: false, unsigned: false, assets_oracle_stale: false, second_debt: false });
+            v.push(Case { bank: bank.into(), dist, ins: 1_000, debt_raw: debt.to_string(), lsv_raw: one.to_string(), signer, permissionless: perm, target: 0, assets, account_flags: 0, stale_s: 0, assets_reduce_only: false, assets_init_limit: 1, assets_isolated: false, unsigned: false, assets_oracle_stale: false, second_debt: false, debt_bank_reduce_only: false });
         }
     }
     // ... and so is one whose assets sit in an isolated-tier bank (they back no borrowing, but they are assets)
     for assets in [110_000u64, 5_000_000_000] {
         for (signer, perm) in [(Signer::RiskAdmin, false), (Signer::Stranger, true)] {
-            v.push(Case { bank: bank.into(), dist, ins: 1_000, debt_raw: debt.to_string(), lsv_raw: one.to_string(), signer, permissionless: perm, target: 0, assets, account_flags: 0, stale_s: 0, assets_reduce_only: false, assets_init_limit: 0, assets_isolated: true, unsigned: false, assets_oracle_stale: false, second_debt: false });
+            v.push(Case { bank: bank.into(), dist, ins: 1_000, debt_raw: debt.to_string(), lsv_raw: one.to_string(), signer, permissionless: perm, target: 0, assets, account_flags: 0, stale_s: 0, assets_reduce_only: false, assets_init_limit: 0, assets_isolated: true, unsigned: false, assets_oracle_stale: false, second_debt: false, debt_bank_reduce_only: false });
         }
     }
     // the account owes a second bank too: settling the first must disable it all the same
     for (signer, perm) in [(Signer::RiskAdmin, false), (Signer::Stranger, true)] {
-        v.push(Case { bank: bank.into(), dist, ins: 1_000, debt_raw: debt.to_string(), lsv_raw: one.to_string(), signer, permissionless: perm, target: 0, assets: 0, account_flags: 0, stale_s: 0, assets_reduce_only: false, assets_init_limit: 0, assets_isolated: false, unsigned: false, assets_oracle_stale: false, second_debt: true });
+        v.push(Case { bank: bank.into(), dist, ins: 1_000, debt_raw: debt.to_string(), lsv_raw: one.to_string(), signer, permissionless: perm, target: 0, assets: 0, account_flags: 0, stale_s: 0, assets_reduce_only: false, assets_init_limit: 0, assets_isolated: false, unsigned: false, assets_oracle_stale: false, second_debt: true, debt_bank_reduce_only: false });
     }
     // the entitled key named but not signing, on a bank without permissionless settlement
     for signer in [Signer::GroupAdmin, Signer::RiskAdmin] {
-        v.push(Case { bank: bank.into(), dist, ins: 1_000, debt_raw: debt.to_string(), lsv_raw: one.to_string(), signer, permissionless: false, target: 0, assets: 0, account_flags: 0, stale_s: 0, assets_reduce_only: false, assets_init_limit: 0, assets_isolated: false, unsigned: true, assets_oracle_stale: false, second_debt: false });
+        v.push(Case { bank: bank.into(), dist, ins: 1_000, debt_raw: debt.to_string(), lsv_raw: one.to_string(), signer, permissionless: false, target: 0, assets: 0, account_flags: 0, stale_s: 0, assets_reduce_only: false, assets_init_limit: 0, assets_isolated: false, unsigned: true, assets_oracle_stale: false, second_debt: false, debt_bank_reduce_only: false });
     }
     // a solvent account whose asset bank's oracle went stale
     for assets in [110_000u64, 5_000_000_000] {
         for (signer, perm) in [(Signer::RiskAdmin, false), (Signer::Stranger, true)] {
-            v.push(Case { bank: bank.into(), dist, ins: 1_000, debt_raw: debt.to_string(), lsv_raw: one.to_string(), signer, permissionless: perm, target: 0, assets, account_flags: 0, stale_s: 0, assets_reduce_only: false, assets_init_limit: 0, assets_isolated: false, unsigned: false, assets_oracle_stale: true, second_debt: false });
+            v.push(Case { bank: bank.into(), dist, ins: 1_000, debt_raw: debt.to_string(), lsv_raw: one.to_string(), signer, permissionless: perm, target: 0, assets, account_flags: 0, stale_s: 0, assets_reduce_only: false, assets_init_limit: 0, assets_isolated: false, unsigned: false, assets_oracle_stale: true, second_debt: false, debt_bank_reduce_only: false });
         }
     }
     // a cover large enough for a capped Token-2022 transfer fee to bind (insurance 1,000,000)
     for b in [400_000i128, 999_999, 1_000_000, 1_000_001] {
         for frac in [0i128, half] {
             let d = b * one + frac;
-            v.push(Case { bank: bank.into(), dist, ins: 1_000_000, debt_raw: d.to_string(), lsv_raw: one.to_string(), signer: Signer::RiskAdmin, permissionless: false, target: 0, assets: 0, account_flags: 0, stale_s: 0, assets_reduce_only: false, assets_init_limit: 0, assets_isolated: false, unsigned: false, assets_oracle_stale: false, second_debt: false });
+            v.push(Case { bank: bank.into(), dist, ins: 1_000_000, debt_raw: d.to_string(), lsv_raw: one.to_string(), signer: Signer::RiskAdmin, permissionless: false, target: 0, assets: 0, account_flags: 0, stale_s: 0, assets_reduce_only: false, assets_init_limit: 0, assets_isolated: false, unsigned: false, assets_oracle_stale: false, second_debt: false, debt_bank_reduce_only: false });
+        }
+    }
+    // the debt bank is being wound down (reduce-only) when the loss is settled: around the wipe-out threshold
+    for ins in [0u64, 1_000] {
+        let (i, d) = (ins as i128, deposits as i128);
+        for b in [i + d / 2, i + d - 1, i + d, i + d + 1, 10 * (i + d)] {
+            for frac in [0i128, half] {
+                for (signer, perm) in [(Signer::RiskAdmin, false), (Signer::Stranger, true)] {
+                    v.push(Case { bank: bank.into(), dist, ins, debt_raw: (b * one + frac).to_string(), lsv_raw: one.to_string(), signer, permissionless: perm, target: 0, assets: 0, account_flags: 0, stale_s: 0, assets_reduce_only: false, assets_init_limit: 0, assets_isolated: false, unsigned: false, assets_oracle_stale: false, second_debt: false, debt_bank_reduce_only: true });
+                }
+            }
         }
     }
     // assets above liabilities but under ten cents: not bankrupt
     for debt_small in [one / 100, one * 20_000] {
-        v.push(Case { bank: bank.into(), dist, ins: 0, debt_raw: debt_small.to_string(), lsv_raw: one.to_string(), signer: Signer::RiskAdmin, permissionless: false, target: 0, assets: 50_000, account_flags: 0, stale_s: 0, assets_reduce_only: false, assets_init_limit: 0, assets_isolated: false, unsigned: false, assets_oracle_stale: false, second_debt: false });
+        v.push(Case { bank: bank.into(), dist, ins: 0, debt_raw: debt_small.to_string(), lsv_raw: one.to_string(), signer: Signer::RiskAdmin, permissionless: false, target: 0, assets: 50_000, account_flags: 0, stale_s: 0, assets_reduce_only: false, assets_init_limit: 0, assets_isolated: false, unsigned: false, assets_oracle_stale: false, second_debt: false, debt_bank_reduce_only: false });
     }
     v
 }
@@ -630,7 +648,7 @@ pub fn replay(v: &serde_json::Value) -> Vec<crate::mc::Violation> {
         // recreate a killed bank: debt far above deposits, no insurance
         let (w, s0) = base(bank, 0);
         let one = I80F48::ONE.to_bits();
-        let c = Case { bank: bank.into(), dist: 0, ins: 0, debt_raw: (50_000 * one).to_string(), lsv_raw: one.to_string(), signer: Signer::RiskAdmin, permissionless: false, target: 0, assets: 0, account_flags: 0, stale_s: 0, assets_reduce_only: false, assets_init_limit: 0, assets_isolated: false, unsigned: false, assets_oracle_stale: false, second_debt: false };
+        let c = Case { bank: bank.into(), dist: 0, ins: 0, debt_raw: (50_000 * one).to_string(), lsv_raw: one.to_string(), signer: Signer::RiskAdmin, permissionless: false, target: 0, assets: 0, account_flags: 0, stale_s: 0, assets_reduce_only: false, assets_init_limit: 0, assets_isolated: false, unsigned: false, assets_oracle_stale: false, second_debt: false, debt_bank_reduce_only: false };
         let j = judge(&w, &s0, &c);
         let Some(k) = j.killed_state else { return vec![] };
         let mut found = vec![];
